@@ -9,11 +9,10 @@ TraceFile == IF "TRACE" \in DOMAIN IOEnv THEN IOEnv.TRACE ELSE "trace.ndjson"
 Trace == ndJsonDeserialize(TraceFile)
 TPasses == { Trace[i].pass : i \in { j \in 1..Len(Trace) : Trace[j].pass # 0 } }
 TInitFails == IF "INITFAILS" \in DOMAIN IOEnv THEN IOEnv.INITFAILS = "1" ELSE FALSE
-\* the repaired latch returns an error; the pinned code returns (nil, nil): both are models, the trace decides
-TLatchErr == IF "LATCHERR" \in DOMAIN IOEnv THEN IOEnv.LATCHERR = "1" ELSE FALSE
+TLatchSkips == TRUE
 
 VARIABLES mu, cached, latch, ppc, got, paramsWrittenBy, readingParams, l
-A == INSTANCE Analyzer WITH Passes <- TPasses, InitFails <- TInitFails, LatchReturnsError <- TLatchErr
+A == INSTANCE Analyzer WITH Passes <- TPasses, InitFails <- TInitFails, LatchSkips <- TLatchSkips
 avars == <<mu, cached, latch, ppc, got, paramsWrittenBy, readingParams>>
 IsEv(e) == l <= Len(Trace) /\ Trace[l].ev = e /\ l' = l + 1
 T == Trace[l]
@@ -29,7 +28,8 @@ TPrepared == IsEv("PassPrepared") /\ A!Create(T.pass)
 TRetInitErr == IsEv("PassReturnInitErr") /\ A!ReturnErr(T.pass)
 TRetCreateErr == IsEv("PassReturnCreateErr") /\ A!CreateErr(T.pass)
 TRetOK == IsEv("PassReturnOK") /\ A!Finish(T.pass)
-TNext == TEnter \/ TLock \/ TLatchHit \/ TCacheHit \/ TInitOK \/ TInitFail \/ TUnlock \/ TPrepared \/ TRetInitErr \/ TRetCreateErr \/ TRetOK
+TRetSkipped == IsEv("PassReturnSkipped") /\ A!Skip(T.pass)
+TNext == TEnter \/ TLock \/ TLatchHit \/ TCacheHit \/ TInitOK \/ TInitFail \/ TUnlock \/ TPrepared \/ TRetInitErr \/ TRetCreateErr \/ TRetOK \/ TRetSkipped
 TSpec == TInit /\ [][TNext]_<<avars, l>>
 NoPanic == A!NoPanic
 CfgOrErr == A!CfgOrErr
@@ -37,6 +37,6 @@ NoPartial == A!NoPartial
 NoParamRace == A!NoParamRace
 WrittenOnce == A!WrittenOnce
 \* every pass that entered has returned when the trace ends
-AllReturned == l = Len(Trace) + 1 => \A p \in TPasses : ppc[p] \in {"idle", "returnedOK", "returnedErr"}
+AllReturned == l = Len(Trace) + 1 => \A p \in TPasses : ppc[p] \in {"idle", "returnedOK", "returnedErr", "returnedSkip"}
 Accepted == TLCGet("stats").diameter - 1 = Len(Trace)
 ==============================================================================
